@@ -183,10 +183,9 @@ def leaf_term(verbs, fill, coords):
     """Leaf, or the registered opaque term when the coordinates are exactly
     (modulo rounding wrappers) those of a previous abstract result."""
     reg = _registry()
-    if not coords:
-        # only moves / nothing: no interior
-        if all(v in ("M", "Z") for v in verbs):
-            return Term("empty", (), ("empty",))
+    # only moves / nothing: no interior
+    if all(v in ("M", "Z") for v in verbs):
+        return Term("empty", (), ("empty",))
     ck = coords_key(coords)
     hit = reg["by_coords"].get((tuple(verbs), ck))
     if hit is not None:
@@ -393,7 +392,10 @@ class Path:
             a = SymReal(z3.Real(f"area!{n}"))
             reg["area"][t.key] = a
             reg.setdefault("area_terms", []).append((t, a))
-            C.cur().axiom(a.t >= 0)
+            if C.cur().opts.get("assume_positive_area"):
+                C.cur().axiom(a.t > 0)
+            else:
+                C.cur().axiom(a.t >= 0)
         return a
 
     @property
